@@ -15,6 +15,7 @@ From Coq Require Import List ZArith NArith Bool String Arith.
 From Verif Require Import common.Sexp c05.Heap c05.Natives c05.Sites gen.GenMapSites.
 Import ListNotations.
 Open Scope nat_scope.
+Local Notation length := List.length.
 
 Definition grow_model (c n : nat) : nat := Nat.max n (2 * c).
 
